@@ -61,37 +61,100 @@ def roundtripTok (c : Constraint) : String :=
   | none => "err"
   | some c' => encConstraint c'
 
-/-- Exact model answer for one formula. -/
+/-- Exact model answer for one formula.  The text of the header is NOT compared
+(the property does not pin the rendering down): `fmt=` is the class of
+`Format`'s result (`ERR` = error, `none` = no constraint line, `lines`), and
+`tb=` the toolchain's decision on the header per assignment, which the harness
+obtains by giving the text avo really printed to the real go/build/constraint. -/
 def tagsLine (cs : Constraints) (names : List Str) (forced : List Str) : String :=
   let valid := validate tc cs
   let gs := encStr (goString cs)
-  if !valid then s!"valid=0 gs={gs}" else
-  let h := format tc cs
   let ev := bitsOf names (fun v => some (evaluate tc v cs)) forced
-  let tb := bitsOf names (fun v => toolchainSelects v h) forced
+  if !valid then s!"valid=0 gs={gs} ev={ev}" else
   let rt := if cs.isEmpty then "Z" else ";".intercalate (cs.map roundtripTok)
-  s!"valid=1 gs={gs} fmt={encStr h.text} ev={ev} tb={tb} rt={rt}"
+  match formatChecked tc cs with
+  | none =>
+    let tb := bitsOf names (fun _ => none) forced
+    s!"valid=1 gs={gs} fmt=ERR ev={ev} tb={tb} rt={rt}"
+  | some h =>
+    let cls := match h with | .none => "none" | .goBuild _ => "lines"
+    let tb := bitsOf names (fun v => toolchainSelects v h) forced
+    s!"valid=1 gs={gs} fmt={cls} ev={ev} tb={tb} rt={rt}"
 
-/-- The property itself on the implementation's outputs: the toolchain accepted
-the header and every toolchain evaluation (go/build/constraint on the printed
-lines, go/build MatchFile on both printed files) equals avo's Evaluate; and
-every constraint parsed back from its printed form. -/
-def acceptTags (ev st tcb mg ma rt : String) : String :=
-  if st != "ok" then s!"bad-toolchain-rejects {st}"
+def bitOf? : Char → Option (Option Bool)
+  | '0' => some (some false)
+  | '1' => some (some true)
+  | 'x' => some none
+  | _ => none
+
+def bitsOf? (s : String) : Option (List (Option Bool)) := s.toList.mapM bitOf?
+
+def plainBits? (s : String) : Option (List Bool) :=
+  s.toList.mapM (fun c => match c with | '0' => some false | '1' => some true | _ => none)
+
+def firstDiff (a : List Bool) (b : List (Option Bool)) : Option Nat :=
+  if a.length != b.length then some 0 else
+  (List.range a.length).find? (fun i => b[i]? != some (some a[i]!))
+
+/-- The property itself on the implementation's outputs (`Obs.ok`, see
+`Avo.Tags.acceptObs_sound`): `Format` succeeded, the toolchain accepted the header
+and every toolchain evaluation (go/build/constraint on the printed lines,
+go/build MatchFile on both printed files) equals avo's Evaluate; and every
+constraint parsed back from its printed form.  When it fails, the answer names
+the failure class; the model is consulted ONLY to tell the three known causes
+(F8c line too complex, F8d too many operands, F8e scanner limit) from an
+unexpected failure of the same shape: every answer other than `ok` is a violation. -/
+def acceptTags (cs : Constraints) (hd st : String) (o : Obs) : String :=
+  if o.ok then "ok" else
+  let allAre (l : List (Option Bool)) (x : Option Bool) : Bool := l.all (· == x)
+  if o.fmtErr then
+    let printedNothing := allAre o.tcb none && allAre o.mg none && allAre o.ma none
+    if st == "format-err" && (formatChecked tc cs).isNone && printedNothing && o.rt.all (· == some true)
+    then "bad-format-error scan-limit" else s!"bad-format-error unexpected {st}"
+  else if o.rejected then
+    let predicted := match formatChecked tc cs with
+      | some h => (toolchainSelects (fun _ => false) h).isNone
+      | none => false
+    if st == "rejected:build_expression_too_large" && predicted && allAre o.mg none && allAre o.ma none
+        && o.rt.all (· == some true)
+    then "bad-toolchain-rejects build_expression_too_large operands>1000"
+    else s!"bad-toolchain-rejects {st} unexpected"
   else
-    let firstDiff (a b : String) : Option Nat :=
-      if a.length != b.length then some 0 else
-      (List.range a.length).find? (fun i => a.toList[i]! != b.toList[i]!)
-    match firstDiff ev tcb with
-    | some i => s!"bad-eval constraint assignment={i}"
+    match firstDiff o.ev o.tcb with
+    | some i =>
+      if hd == "none" then
+        let complex := cs.any (fun c => termCount c > maxOldSize + 1)
+        let always := allAre o.tcb (some true) && allAre o.mg (some true) && allAre o.ma (some true)
+        if complex && formatChecked tc cs == some .none && always && o.rt.all (· == some true)
+        then s!"bad-eval no-header line-too-complex assignment={i}"
+        else s!"bad-eval no-header unexpected assignment={i}"
+      else s!"bad-eval constraint assignment={i}"
     | none =>
-    match firstDiff ev mg with
+    match firstDiff o.ev o.mg with
     | some i => s!"bad-eval matchfile-go assignment={i}"
     | none =>
-    match firstDiff ev ma with
+    match firstDiff o.ev o.ma with
     | some i => s!"bad-eval matchfile-asm assignment={i}"
-    | none =>
-      if rt.toList.all (· == '1') then "ok" else "bad-roundtrip"
+    | none => "bad-roundtrip"
+
+def acceptTagsReq (f : String) (rest : List String) : Option String := do
+  let cs ← decFormula f
+  let (_, rest) ← tagUniverse rest
+  match rest with
+  | [_sh, hd, ev, st, tcb, mg, ma, rt] =>
+    let hd ← kv "hd" hd
+    let st ← kv "st" st
+    let o : Obs := {
+      fmtErr := st.startsWith "format-"
+      rejected := st.startsWith "rejected:"
+      ev := ← plainBits? (← kv "ev" ev)
+      tcb := ← bitsOf? (← kv "tc" tcb)
+      mg := ← bitsOf? (← kv "mg" mg)
+      ma := ← bitsOf? (← kv "ma" ma)
+      rt := ← bitsOf? (← kv "rt" rt) }
+    if st != "ok" && !o.fmtErr && !o.rejected then none else
+    some (acceptTags cs hd st o)
+  | _ => none
 
 def exprLine (names : List Str) (r : Option (Option Expr)) : String :=
   match r with
@@ -136,18 +199,28 @@ def handle : Handler
     let cs ← decFormula f
     let (names, _) ← tagUniverse rest
     some (tagsLine cs names [ignoreTag])
-  | "accept-tags" :: "valid=1" :: _f :: rest => do
+  | "accept-tags" :: "valid=1" :: f :: rest => acceptTagsReq f rest
+  | "accept-tags-ignore" :: "valid=1" :: f :: rest => acceptTagsReq f rest
+  | ["accept-ctx", f] => do
+    -- build.Context reported no error: the set it holds must be valid
+    let cs ← decFormula f
+    some (if validate tc cs then "ok" else "bad-context-accepts-invalid")
+  | "accept-parse" :: _kind :: _text :: rest => do
+    -- avo parsed the text: the parsed constraint must mean what the toolchain reads from the text
     let (_, rest) ← tagUniverse rest
     match rest with
-    | [ev, st, tcb, mg, ma, rt] =>
-      some (acceptTags (← kv "ev" ev) (← kv "st" st) (← kv "tc" tcb) (← kv "mg" mg) (← kv "ma" ma) (← kv "rt" rt))
+    | [avo, tool] =>
+      let a ← kv "avo" avo
+      let t ← kv "tool" tool
+      if t == "rejected" then some "bad-parse-accepts-non-constraint" else
+      let a ← plainBits? a
+      let t ← bitsOf? t
+      some (if acceptEvals a t then "ok" else "bad-parse-meaning")
     | _ => none
-  | "accept-tags-ignore" :: "valid=1" :: _f :: rest => do
-    let (_, rest) ← tagUniverse rest
-    match rest with
-    | [ev, st, tcb, mg, ma, rt] =>
-      some (acceptTags (← kv "ev" ev) (← kv "st" st) (← kv "tc" tcb) (← kv "mg" mg) (← kv "ma" ma) (← kv "rt" rt))
-    | _ => none
+  | ["accept-badutf8", _t, avo] => do
+    -- a term that is not valid UTF-8 contains U+FFFD for Go's `range`: never a tag character
+    let a ← kv "avo" avo
+    some (if a == "0" then "ok" else "bad-accepts-invalid-utf8")
   | ["term", t] => do
     let t ← decTerm t
     some s!"valid={bit (validTerm tc t)} neg={bit (isNegated t)} name={encStr (name t)}"
@@ -191,7 +264,7 @@ def handleRanges : Handler
 
 def handlers : List (String × Handler) :=
   ("accept-tagranges", handleRanges) ::
-  ["syntax", "tags", "tags-ignore", "accept-tags", "accept-tags-ignore", "term", "accept-term",
+  ["syntax", "tags", "tags-ignore", "accept-tags", "accept-tags-ignore", "term", "accept-term", "accept-badutf8", "accept-ctx", "accept-parse",
    "parse", "parseopt", "tcline", "ctx"].map (·, handle)
 
 end Avo.Drv.C14
